@@ -97,7 +97,9 @@ func vC16Sorted(vs *ValidatorSet) bool {
 func VerifHarness_C16_D4_mutation() {
 	n := vParam("N", 2)
 	vs := vC16MkSet(n, true)
-	vs.IncrementAccum(1) // warm caches
+	if vNondetBool("warm") {
+		vs.IncrementAccum(1) // warm caches (a freshly reloaded set has cold ones)
+	}
 	cp := vs.Copy()
 	cpProp := cp.Proposer().Address[0]
 	cpTotal := cp.TotalVotingPower()
